@@ -8,15 +8,17 @@ SPEC = {
     "sizes": {"quick": 20000, "thorough": 200000},
     "search_n": 200000,
     "rule": ("X = EVERY script over {M merge(tag), N no-op closure, D drop sender, P poll recv (fresh or parked future), "
-             "C cancel recv, R drop receiver} up to length 10 (quick; thorough: length 14 with at most one N, plus "
-             "length 11 with any number of N), only maximal scripts written (each contains the observations of all its "
+             "C cancel recv, R drop receiver} up to length 10, and up to length 12 without N (quick; thorough: length 14 "
+             "with at most one N, plus length 11 with any number of N), only maximal scripts written (each contains the observations of all its "
              "prefixes); Q = seeded scripts of length 15..60; the REAL channel is driven on one thread by a hand-written "
              "poll loop with a counting waker, and every modify result, every poll's Pending/Ready(value) and the "
              "cumulative wake count after every operation are compared EXACTLY with the extracted model (run_ops); "
              "S = two OS threads, producer merges tags 0..n-1 then drops, consumer receives until None (4 modes incl. "
-             "permanent cancel/restart), checked by the extracted stress_ok; non-trivial = scripts with at least one "
+             "permanent cancel/restart), checked by the extracted stress_ok; Z = end-to-end on mocknode: every round "
+             "adds a node to the mock cluster and issues 1/4/16 concurrent Session::refresh_metadata calls, all must be "
+             "answered Ok and get_cluster_state must show the mock's node count; non-trivial = scripts with at least one "
              "poll and one merge, and all S cases; distinct = distinct case lines"),
-    "nontrivial": lambda ln: ln.startswith("S") or ("P" in ln.split("|")[0][2:] and "M" in ln.split("|")[0][2:]),
+    "nontrivial": lambda ln: ln.startswith("S") or ln.startswith("Z") or ("P" in ln.split("|")[0][2:] and "M" in ln.split("|")[0][2:]),
     "trusted_base": [
         "hook scylla::cluster::metadata::verif_merge_channel (newtype pass-throughs around Sender/Receiver/merge_channel)",
         "tokio::sync::Notify is modelled for ONE waiter (notify_one / notified+enable / poll / drop); the model is "
